@@ -51,6 +51,13 @@ Theorem C03_read_metadata_oneline : forall fields x p,
 Proof. exact read_metadata_oneline. Qed.
 Print Assumptions C03_read_metadata_oneline.
 
+(* a comment shared by the variables of one declaration must be scanned on a copy per variable:
+   scanning the body again is not the identity (FORD's scan pops the lines of its argument) *)
+Theorem C03_meta_rescan_not_identity :
+  exists l m b, meta_preprocessor l = (m, b) /\ m <> [] /\ meta_preprocessor b <> ([], b).
+Proof. exact meta_rescan_not_identity. Qed.
+Print Assumptions C03_meta_rescan_not_identity.
+
 (* ------------------------------------------------------------------ admonitions: words *)
 (* no word dropped, duplicated or reordered: every "@type" word becomes the two words
    "@note" "Type", every "@endtype" word disappears, everything else stays, in order.
